@@ -355,6 +355,61 @@ pub fn run(ctx: &Ctx, model: &mut Model, rep: &mut Report) {
             Err(p) => rep.fail(json!({"kind": "completion", "ext": ext, "order": order, "what": format!("panic: {}", p)})),
         }
     }
+    // correspondence: the model's `Completion.linkCompletions` (label, sort text, insert text, filter text of every
+    // item, from every asking note) vs `handle_completion` on generated libraries
+    for i in 0..(if ctx.thorough { 400 } else { 40 }) {
+        let mut r = crate::rng::Rng::for_case(ctx.seed ^ 0xC15C, i as u64);
+        let h0 = crate::hist::gen_history(&mut r, true, 0);
+        let h = crate::hist::History { ext: h0.ext.clone(), import: h0.import.clone(), steps: vec![] };
+        let Some(reply) = crate::hist::model_reply_parts(model, &h, &["completions"]) else { continue };
+        let states = crate::dump::children(&reply);
+        let Some(last) = states.last() else { continue };
+        let parts = crate::dump::children(last);
+        let Some(mc) = parts.iter().find(|p| p.starts_with("(completions")) else {
+            rep.count("completion_corr_skipped_model_error");
+            continue;
+        };
+        let state: std::collections::HashMap<String, String> = h.import.iter().cloned().collect();
+        let mut keys: Vec<String> = h.import.iter().map(|(k, _)| liwe::model::Key::from_file_name(k).to_string()).collect();
+        keys.sort();
+        keys.dedup();
+        let real = catch(std::panic::AssertUnwindSafe(|| {
+            let server = crate::act::with_via(crate::act::Via::Import, || crate::props::c01::server_for(&state, &h.ext));
+            let mut out = String::from("(completions");
+            for k in &keys {
+                let resp = server.handle_completion(lsp_types::CompletionParams {
+                    text_document_position: lsp_types::TextDocumentPositionParams { text_document: lsp_types::TextDocumentIdentifier { uri: crate::props::c01::uri_for(k) }, position: lsp_types::Position::new(0, 0) },
+                    work_done_progress_params: Default::default(),
+                    partial_result_params: Default::default(),
+                    context: None,
+                });
+                let items = match resp {
+                    lsp_types::CompletionResponse::List(l) => l.items,
+                    lsp_types::CompletionResponse::Array(a) => a,
+                };
+                let mut lines: Vec<String> = items
+                    .iter()
+                    .filter(|it| it.label.starts_with("🔗"))
+                    .map(|it| format!("{}\n{}\n{}\n{}", it.label, it.sort_text.clone().unwrap_or_default(), it.insert_text.clone().unwrap_or_default(), it.filter_text.clone().unwrap_or_default()))
+                    .collect();
+                lines.sort();
+                out.push_str(&format!(" ({}{})", crate::sexp::hex(k), lines.iter().map(|l| format!(" {}", crate::sexp::hex(l))).collect::<String>()));
+            }
+            out.push(')');
+            out
+        }));
+        let Ok(real) = real else {
+            rep.count("completion_corr_skipped_impl_panic");
+            continue;
+        };
+        // titles with non-ASCII letters: `to_lowercase` of the filter text is outside the model (compared on the other fields)
+        let ascii = h.import.iter().all(|(_, t)| t.lines().filter(|l| l.starts_with('#')).all(|l| l.is_ascii()));
+        rep.correspondence_cases += 1;
+        rep.count("completion_corr_cases");
+        if ascii && *mc != real {
+            rep.disagree(json!({"op": "Completion.linkCompletions", "model": mc.chars().take(600).collect::<String>(), "impl": real.chars().take(600).collect::<String>(), "history": crate::hist::to_json(&h)}));
+        }
+    }
     rep.count_n("oracle_cases", oracle_cases);
     rep.evaluations += oracle_cases;
     rep.exhaustive = false;
